@@ -11,7 +11,7 @@ struct World {
     DataFrame df;
     Tag tag, tag_u; MultiTag mtag; Group grp;
     Source src, src_child, src_child2, src_leaf, src2;
-    Section sec, sec_child, sec2;
+    Section sec, sec_child, sec_grand, sec2;
     Property prop, prop2;
     Feature tfeat, mfeat;
 };
@@ -24,6 +24,7 @@ inline void build_world(World &w, FileMode mode = FileMode::Overwrite) {
     w.f = File::open(WORLD_FILE, mode);
     w.sec = w.f.createSection("sec", "recording");
     w.sec_child = w.sec.createSection("child", "subject");
+    w.sec_grand = w.sec_child.createSection("grand", "detail");          // depth 3, used as metadata below
     w.sec2 = w.f.createSection("sec2", "other");
     w.sec2.link(w.sec);
     w.prop = w.sec.createProperty("temperature", DataType::Double);
@@ -51,6 +52,7 @@ inline void build_world(World &w, FileMode mode = FileMode::Overwrite) {
     w.da2.appendSetDimension({"r0", "r1"});
     w.da2.appendRangeDimension({1.0, 2.0, 4.0}, "x", "mm");
     w.da2.addSource(w.src_child2);
+    w.da2.metadata(w.sec_grand);
     w.da_u = w.b.createDataArray(UUID_NAME, "signal", DataType::Double, NDSize({2}));
     { std::vector<double> v = {0.5, 0.25}; w.da_u.setData(v); }
     w.da_u.appendSetDimension();
@@ -94,6 +96,7 @@ inline void build_world(World &w, FileMode mode = FileMode::Overwrite) {
 // re-acquire all handles from a (re)opened file
 inline void rebind_world(World &w) {
     w.sec = w.f.getSection("sec"); w.sec_child = w.sec ? w.sec.getSection("child") : Section(); w.sec2 = w.f.getSection("sec2");
+    w.sec_grand = w.sec_child ? w.sec_child.getSection("grand") : Section();
     w.prop = w.sec ? w.sec.getProperty("temperature") : Property(); w.prop2 = w.sec_child ? w.sec_child.getProperty("name") : Property();
     w.b = w.f.getBlock("blk"); w.b2 = w.f.getBlock("blk2");
     if (!w.b) return;
@@ -111,7 +114,7 @@ inline void drop_handles(World &w) {
     w.grp = none; w.mtag = none; w.tag = none; w.tag_u = none; w.df = DataFrame(); w.da_u = none; w.b2_pos = none; w.src_leaf = none; w.src_child2 = none;
     w.feat = none; w.ext = none; w.pos = none; w.da2 = none; w.da1 = none;
     w.src_child = none; w.src2 = none; w.src = none; w.b2 = none; w.b = none;
-    w.sec_child = none; w.sec2 = none; w.sec = none;
+    w.sec_grand = none; w.sec_child = none; w.sec2 = none; w.sec = none;
 }
 
 }  // namespace vh
